@@ -646,6 +646,14 @@ class Fn:
         p = self.path(frm, dsts, avoid_blocks=through_blocks)
         if p is None:
             return (True, None)
+        # the syntactic path may be infeasible (a helper's `Err` return cannot take the caller's `Ok` arm, ...): retry with the
+        # path-sensitive exploration, which knows the variants of values it has seen constructed
+        try:
+            reached, _ = AbsPaths(self, limit=6000).explore(frm, stop_blocks=set(through_blocks))
+            if not (set(dsts) & (reached - (set(through_blocks) - {frm}))):
+                return (True, None)
+        except AbsPaths.Undecided:
+            pass
         return (False, p)
 
     # ---- slicing
